@@ -37,7 +37,7 @@ def clause_a(ctx, P):
     ctx.ob("C16a.engine-converged", "fixpoint reached in every function", not A.nonconverged, "", "non-converged: %s" % sorted(A.nonconverged))
     dec_scope = {n for n in sc if "encode_txt" not in n}
     n = e3.emit_sites(ctx, P, A, "C16a.F1.panic-site", dec_scope, classes=("A", "B"), justify=JUSTIFIED)
-    ctx.floor("C16a.F1", n.get("A", 0), 8, "class-A sites (index/slice) in the TXT decoders")
+    ctx.floor("C16a.F1", n.get("A", 0), 4, "class-A sites (index/slice/split) in the TXT decoders")
     counts = e3.emit_loops(ctx, P, A, "C16a.F2.loop-terminates", dec_scope)
     ctx.floor("C16a.F2", counts["ranked"] + counts["iterator"] + counts["open"], 2, "decode loops")
     # b. the length byte
